@@ -225,7 +225,7 @@ Definition get_first_job_input_volume (ar : archp) (c : curop) (ibd : Z) (off : 
   | None => None
   | Some oc =>
       let x := Z.max 0 (px oc * co_sx c - co_pl c) in
-      let y := Z.max 0 (py oc * co_sy c - co_pr c) in      (* sic: padding.right *)
+      let y := Z.max 0 (py oc * co_sy c - co_pt c) in
       let z := (off mod idb) * ibd in
       Some ((x, y, z), (x + ibw, y + ibh, z + ibd))
   end.
